@@ -78,6 +78,8 @@ def build(tier):
 def run(tier):
     rep = common.Report("C18", tier, LEVEL)
     _common.model_checks(rep, [("ZUpdate", "ZUpdate_forms.cfg")])
+    from .. import drv_admm
+    drv_admm.zstep_replay(rep, tier, {"C18"})          # scalar vs constant-matrix consensus step on exact data
     data = corpus.cached(f"forms_{tier}_{common.seed()}", lambda: build(tier))
     memo = []
     for (bid, start, n) in data["groups"]:
